@@ -1680,3 +1680,46 @@ fn k_dash_offset_loop() {
     dash_offset_case(&[1., 0., 2., 3.], 6.);
     kani::cover!(true);
 }
+
+// ------------------------------------------------------------------ copy / blend wrappers (C15 #2)
+pub static mut OIR: (usize, usize, usize, usize, usize, u32) = (0, 0, 0, 0, 0, 0);
+fn over_in_row_rec(src: &[u32], dst: &mut [u32], alpha: u32) {
+    unsafe { OIR = (OIR.0 + 1, src.as_ptr() as usize, src.len(), dst.as_ptr() as usize, dst.len(), alpha); }
+}
+// @ob id=K.surface_wrappers props=C15,C07,C11 kind=bounded:2x1-surfaces tier=quick timeout=600 fns=DrawTarget::copy_surface,DrawTarget::blend_surface,DrawTarget::blend_surface_with_alpha
+// @+ desc="the three surface-to-surface calls on 2x1 surfaces (concrete pixels, symbolic alpha): copy_surface replaces the destination block with the source block exactly; blend_surface applies the blend mode's formula per pixel (Xor checked against sw_composite::blend::Xor); blend_surface_with_alpha hands the whole row to over_in_row with alpha byte = round(alpha*255) for EVERY f32 alpha (1.0 included: still source-over, never a plain copy); clip stack, layers and transform are neither read nor written. over_in_row (SSE2 intrinsics in the dependency) is replaced by a recorder: assumed to be over_in per pixel"
+#[kani::proof]
+#[kani::unwind(8)]
+#[kani::stub(sw_composite::over_in_row, over_in_row_rec)]
+fn k_surface_wrappers() {
+    // concrete premultiplied pixels: the per-pixel formulas are the kernels' (proved elsewhere); this contract is about
+    // which row function is applied to which block with which parameter
+    let s: [u32; 2] = [0x80402010, 0xff102030];
+    let d0: [u32; 2] = [0xc0a08060, 0x40101010];
+    let mut src = DrawTarget::new(2, 1);
+    src.buf.copy_from_slice(&s);
+    let mut dst = DrawTarget::new(2, 1);
+    dst.transform = Transform::new(3., 0., 0., 3., 1., 1.);
+    dst.push_clip_rect(intrect(0, 0, 1, 1));
+    let full = intrect(0, 0, 2, 1);
+    // copy
+    dst.buf.copy_from_slice(&d0);
+    dst.copy_surface(&src, full, IntPoint::new(0, 0));
+    assert!(dst.buf[0] == s[0] && dst.buf[1] == s[1], "copy replaces (clip ignored)");
+    // blend with a mode
+    dst.buf.copy_from_slice(&d0);
+    dst.blend_surface(&src, full, IntPoint::new(0, 0), BlendMode::Xor);
+    assert!(dst.buf[0] == <blend::Xor as blend::Blend>::blend(s[0], d0[0]) && dst.buf[1] == <blend::Xor as blend::Blend>::blend(s[1], d0[1]), "blend_surface applies the mode's formula per pixel");
+    // blend with alpha
+    let alpha: f32 = kani::any();
+    unsafe { OIR.0 = 0; }
+    dst.buf.copy_from_slice(&d0);
+    dst.blend_surface_with_alpha(&src, full, IntPoint::new(0, 0), alpha);
+    let o = unsafe { OIR };
+    assert!(o.0 == 1 && o.1 == src.buf.as_ptr() as usize && o.2 == 2 && o.3 == dst.buf.as_ptr() as usize && o.4 == 2, "one source-over row over the whole block");
+    let exp: u32 = if alpha.is_nan() || alpha <= 0. { 0 } else if alpha >= 1. { 255 } else { (alpha * 255. + 0.5) as u32 };
+    assert!(o.5 == exp, "alpha byte = round(alpha*255), saturating");
+    assert!(dst.clip_stack.len() == 1 && dst.layer_stack.len() == 0 && dst.transform.m11 == 3., "clip stack, layers and transform untouched");
+    kani::cover!(alpha == 1.0);
+    kani::cover!(alpha == 0.5);
+}
